@@ -514,6 +514,35 @@ pub fn mode_fuzz(args: &[String]) -> i32 {
             writeln!(w, "{rec}").unwrap();
         }
     }
+    // every corpus shader under every capability set that lacks exactly one capability, and
+    // under every single capability: the gate must follow naga's verdict for that very set
+    {
+        let all = naga::valid::Capabilities::all().bits();
+        let mut n = 0u64;
+        for (name, src) in &corpus {
+            for bit in 0..32u32 {
+                if all & (1 << bit) == 0 {
+                    continue;
+                }
+                for bits in [all & !(1u32 << bit), 1u32 << bit] {
+                    n += 1;
+                    if n % shard.1 != shard.0 {
+                        continue;
+                    }
+                    let caps = format!("bits:{bits}");
+                    let mut rec = examine_with(src, &caps, 0);
+                    rec["i"] = json!(-2);
+                    rec["parent"] = json!(name);
+                    rec["muts"] = json!(["capability-sweep"]);
+                    rec["len"] = json!(src.len());
+                    if rec["ref_valid"] == "err" && rec["on"]["kind"] != "ValidationError" {
+                        rec["source"] = json!(src);
+                    }
+                    writeln!(w, "{rec}").unwrap();
+                }
+            }
+        }
+    }
     for k in 0..count {
         if k % shard.1 != shard.0 {
             continue;
